@@ -2,5 +2,5 @@
 # runs the thorough tier of every check once (sequentially) and prints one summary line per check
 for p in ${1:-C01 C08 C09 C10 C11 C12 C13 C14 C19 C20}; do
   out=$(./vcheck $p --tier thorough ${2:-} 2>&1); rc=$?
-  echo "prop=$p rc=$rc $(echo "$out" | grep -E "thorough:|VIOLATION|INFRA|stuck" | head -4 | tr '\n' ' ' | cut -c1-400)"
+  echo "prop=$p rc=$rc $(echo "$out" | grep -E -A3 "thorough:|VIOLATION|INFRA|stuck" | head -8 | tr '\n' ' ' | cut -c1-1500)"
 done
